@@ -122,6 +122,26 @@ impl DeferredBeneficiaryReward {
     }
 }
 
+#[cfg(feature = "verif-hooks")]
+impl DeferredBeneficiaryReward {
+    /// Build a deferred reward from a non-zero amount.
+    pub(crate) fn verif_new(amount: U256) -> Self {
+        assert!(!amount.is_zero(), "a deferred reward must be non-zero");
+        Self(amount)
+    }
+
+    /// The raw reward amount.
+    pub(crate) fn verif_amount(self) -> U256 {
+        self.0
+    }
+}
+
+/// The reward amount grevm computes for `gas`, `None` when fee charging is disabled.
+#[cfg(feature = "verif-hooks")]
+pub(crate) fn verif_reward_amount<CTX: ContextTr>(context: &CTX, gas: &Gas) -> Option<U256> {
+    BeneficiaryReward::from_gas(context, gas).map(|reward| reward.0)
+}
+
 #[cfg(test)]
 mod tests {
     use super::*;
